@@ -188,7 +188,15 @@ theorem asOperands_sound (shape : Shape) (env : List (String × Arr Val)) (i : I
     os.map (·.value env shape i) = es.map (eval (idxEnv i env)) := by
   simp only [asOperands] at h
   split at h
-  · exact asOperandList_sound shape env i hi es os h
+  · cases hl : asOperandList shape (shapesOf env) es with
+    | none => simp [hl] at h
+    | some os' =>
+      simp only [hl] at h
+      split at h
+      · simp only [Option.some.injEq] at h
+        subst h
+        exact asOperandList_sound shape env i hi es os' hl
+      · cases h
   · cases h
 
 /-! ### the stages of the cascade -/
